@@ -44,6 +44,9 @@ func NodeTypes() []reflect.Type {
 type Filler struct {
 	n    int
 	Omit string // "Type.Field": leave this one field zero
+	// Empty is a "Type.Field" of type *FieldList or *BlockStmt that is set to a present but empty
+	// list (func f() () {}, an empty body): a node of its own that traversals must still visit
+	Empty string
 }
 
 func (f *Filler) id() string {
@@ -59,6 +62,10 @@ func (f *Filler) Fill(t reflect.Type, depth int) dst.Node {
 	for i := 0; i < st.NumField(); i++ {
 		sf := st.Type().Field(i)
 		if f.Omit == st.Type().Name()+"."+sf.Name {
+			continue
+		}
+		if f.Empty == st.Type().Name()+"."+sf.Name && sf.Type.Kind() == reflect.Ptr {
+			st.Field(i).Set(reflect.New(sf.Type.Elem()))
 			continue
 		}
 		fv := st.Field(i)
